@@ -56,7 +56,9 @@ func VerifH_pool_alias() {
 	// reply of request 1 through the pooled encode buffer
 	reply1 := newFakeMsg(in)
 	reply1.vals["content_type"] = protoreflect.ValueOfString("image/x")
-	reply1.vals["data"] = protoreflect.ValueOfBytes(append([]byte{}, body1...))
+	// the handler keeps the data it replies with (a cached asset): it stays the handler's
+	kept1 := append(make([]byte, 0, 8), body1...)
+	reply1.vals["data"] = protoreflect.ValueOfBytes(kept1)
 	vfCheck(s1.SendMsg(reply1) == nil, "first reply refused")
 	sent1 := s1.w.(*vfFlushSink).buf
 
@@ -71,6 +73,7 @@ func VerifH_pool_alias() {
 	vfCheck(vfBytesEq(data1, body1), "bytes retained by the first request's handler were overwritten by the second request (pooled buffer aliased)")
 	vfCheck(vfBytesEq(msg2.vals["data"].Bytes(), body2), "second request's data differs from its body")
 	vfCheck(vfBytesEq(sent1, body1), "reply bytes of the first request changed after the second request")
+	vfCheck(vfBytesEq(kept1, body1), "the data a handler replied with (and kept) was overwritten by a later request: the reply's own slice went into the buffer pool")
 	vfCheck(vfBytesEq(s2.w.(*vfFlushSink).buf, body2), "second reply differs from its data")
 	vfCover("two-requests")
 }
